@@ -47,6 +47,19 @@ pub fn generate(ctx: &mut Ctx) {
         }
         bi += 1;
     }
+    for len in gen::sweep_lengths() {
+        if ctx.quick() && len > 5000 {
+            continue;
+        }
+        if ctx.mine(bi) {
+            for iri in [false, true] {
+                for s in gen::length_sweep_refs(len, iri) {
+                    ctx.run(Case::new("ref").arg(s.as_bytes()));
+                }
+            }
+        }
+        bi += 1;
+    }
     let n = ctx.by_tier(600_000u64, 6_000_000u64) / ctx.nshards;
     for i in 0..n {
         let mut rng = ctx.rng("valid", i);
